@@ -2074,3 +2074,82 @@ def materialize(call):
 def coverage():
     names = [k.name for k in K.load_spec()]
     return [n for n in names if n not in GEN], [n for n in GEN if n not in names]
+
+
+# ====================================================================== order properties (unstable sorts)
+def _lt(asc):
+    return (lambda a, b: a < b) if asc else (lambda a, b: a > b)
+
+
+def check_property(call, rc):
+    """for kernels whose result is only determined up to the order of equal keys (std::sort), or whose YAML
+    definition is a placeholder and the contract is simply 'sorted permutation': returns a problem string or None"""
+    if rc.get('status') != 'ok':
+        return None
+    k = call.spec.kernel.name
+    v = call.vals
+    if k == 'awkward_sort':
+        src, out, off = v['fromptr'], rc['out']['toptr'], v['offsets']
+        for a, b in zip(off, off[1:]):
+            seg = out[a:b]
+            if sorted(seg) != sorted(src[a:b]):
+                return 'awkward_sort: segment [%d:%d] is not a permutation of the input' % (a, b)
+            exp = sorted(src[a:b], reverse=not v['ascending'])
+            if seg != exp:
+                return 'awkward_sort: segment [%d:%d] is not sorted: %r' % (a, b, seg)
+        return None
+    if k in ('awkward_argsort', 'awkward_quick_argsort'):
+        src, out, off = v['fromptr'], rc['out']['toptr'], v['offsets']
+        for a, b in zip(off, off[1:]):
+            seg = out[a:b]
+            if sorted(seg) != list(range(b - a)):
+                return '%s: segment [%d:%d] is not a permutation of local positions: %r' % (k, a, b, seg)
+            keys = [src[a + i] for i in seg]
+            if keys != sorted(keys, reverse=not v['ascending']):
+                return '%s: segment [%d:%d] does not realise the order: %r' % (k, a, b, keys)
+            if k == 'awkward_argsort' and v['stable']:
+                for x, y in zip(seg, seg[1:]):
+                    if src[a + x] == src[a + y] and x > y:
+                        return 'awkward_argsort(stable): equal keys out of input order in segment [%d:%d]' % (a, b)
+        return None
+    if k == 'awkward_quick_sort':
+        src, out = v['tmpptr'], rc['out']['tmpptr']
+        for a, b in zip(v['fromstarts'], v['fromstops']):
+            if out[a:b] != sorted(src[a:b], reverse=not v['ascending']):
+                return 'awkward_quick_sort: segment [%d:%d] not the sorted input: %r' % (a, b, out[a:b])
+        return None
+    if k == 'awkward_ListOffsetArray_local_preparenext_64':
+        src, out = v['fromindex'], rc['out']['tocarry']
+        if sorted(out) != list(range(len(src))) or [src[i] for i in out] != sorted(src):
+            return 'local_preparenext: not an argsort of fromindex: %r' % (out,)
+        return None
+    if k == 'awkward_NumpyArray_sort_asstrings_uint8':
+        off, data = v['offsets'], v['fromptr']
+        words = [bytes(data[a:b]) for a, b in zip(off, off[1:])]
+        words.sort(reverse=not v['ascending'])
+        exp = [c for w in words for c in w]
+        eo = [0]
+        for w in words:
+            eo.append(eo[-1] + len(w))
+        if rc['out']['toptr'] != exp or rc['out']['outoffsets'] != eo:
+            return 'sort_asstrings: expected %r %r got %r %r' % (exp, eo, rc['out']['toptr'], rc['out']['outoffsets'])
+        return None
+    if k == 'awkward_ListOffsetArray_argsort_strings':
+        off0, off1, data, par = v['stringstarts'], v['stringstops'], v['stringdata'], v['fromparents']
+        out = rc['out']['tocarry']
+        n = v['length']
+        i = 0
+        while i < n:
+            j = i
+            while j < n and par[j] == par[i]:
+                j += 1
+            seg = out[i:j]
+            idx = [x + i for x in seg] if v['is_local'] else seg
+            if sorted(idx) != list(range(i, j)):
+                return 'argsort_strings: group [%d:%d] is not a permutation: %r' % (i, j, seg)
+            keys = [bytes(data[off0[x]:off1[x]]) for x in idx]
+            if keys != sorted(keys, reverse=not v['is_ascending']):
+                return 'argsort_strings: group [%d:%d] does not realise the order: %r' % (i, j, keys)
+            i = j
+        return None
+    return None
